@@ -148,7 +148,7 @@ Proof.
     + destruct (r_delta rc) eqn:Hd; cbn [andb].
       * rewrite (Ha eq_refl). rewrite collect_delta_reset by exact Hd. apply (IH (new_agg 0) [] d' err _ n). reflexivity.
       * destruct (scfg_cum rc Hd) as [_ [Ht [Hp _]]]. rewrite collect_cum_id by assumption. apply IH. intros; discriminate.
-  - destruct o as [i' k v| | | | |b]; try discriminate; cbn [sstep cycles]; unfold outs_of, st_of.
+  - destruct o as [i' k v| | | | |b|]; try discriminate; cbn [sstep cycles]; unfold outs_of, st_of.
     + destruct (Nat.eqb i' i); cbn [fst snd app s_agg s_down s_err s_any].
       * rewrite <- (IH a (cur ++ [(k, v)]) down err true n Ha). rewrite vm1_app, measure_all_app. reflexivity.
       * now apply IH.
@@ -197,8 +197,8 @@ Definition is_shutdown (r : nat) (o : op) : bool := match o with Shutdown r' => 
 Lemma attempt_dropped rc r down err ad o : fst (fst (attempt rc r down err ad o)) = CDropped -> ad = false.
 Proof.
   destruct ad; [|reflexivity]. intros H. exfalso. revert H.
-  destruct o as [i k v|r'|r'|r'|r'|b]; cbn [attempt];
-    try destruct (Nat.eqb r' r); try destruct (rk rc); destruct down, err; cbn; discriminate.
+  destruct o as [i k v|r'|r'|r'|r'|b|r']; cbn [attempt];
+    try destruct (Nat.eqb r' r); try destruct (rk rc); destruct down, err; try destruct (r_cb rc); cbn; discriminate.
 Qed.
 
 (** nothing is ever lost: the lossy and the ideal reading coincide.  Invariant: a delta reader
@@ -224,7 +224,7 @@ Proof.
         rewrite (Hq Hdl Had). destruct l1, l2; reflexivity. }
       rewrite Ecur. apply IH.
       intros Hdl _. destruct (l2 && r_delta rc); [reflexivity|]. now apply Hq.
-  - destruct o as [i' k v| | | | |b]; try discriminate; cbn [cycles pending].
+  - destruct o as [i' k v| | | | |b|]; try discriminate; cbn [cycles pending].
     + apply IH. intros _ Hx. discriminate.
     + now apply IH.
 Qed.
@@ -237,7 +237,7 @@ Proof.
   destruct (reader_op o) eqn:Hro.
   - rewrite !cycles_reader by exact Hro. rewrite Hd, !andb_false_r.
     destruct (attempt rc r down err ad o) as [[c d'] code]. destruct c; try apply IH. f_equal. apply IH.
-  - destruct o as [i' k v| | | | |b]; try discriminate; cbn [cycles]; apply IH.
+  - destruct o as [i' k v| | | | |b|]; try discriminate; cbn [cycles]; apply IH.
 Qed.
 
 Lemma quiet_init rc : quiet rc false [].
@@ -267,7 +267,7 @@ Proof.
   - rewrite (sstep_reader rc r i s o Hro), (codes_reader rc r o t _ _ _ Hro).
     destruct (attempt rc r (s_down s) (s_err s) (s_any s) o) as [[c d'] code].
     destruct c; unfold code_of, st_of; cbn [fst snd]; rewrite IH; reflexivity.
-  - destruct o as [i' k v| | | | |b]; try discriminate; cbn [sstep codes].
+  - destruct o as [i' k v| | | | |b|]; try discriminate; cbn [sstep codes].
     + destruct (Nat.eqb i' i); unfold code_of, st_of; cbn [fst snd]; rewrite IH; reflexivity.
     + unfold code_of, st_of; cbn [fst snd]. rewrite IH. reflexivity.
 Qed.
@@ -288,7 +288,7 @@ Proof.
     + apply IH.
     + rewrite collect_delta_reset by exact Hd. apply (IH [] d' err).
     + rewrite collect_delta_reset by exact Hd. apply (IH [] d' err).
-  - destruct o as [i' k v| | | | |b]; try discriminate; cbn [sstep pending]; unfold st_of.
+  - destruct o as [i' k v| | | | |b|]; try discriminate; cbn [sstep pending]; unfold st_of.
     + destruct (Nat.eqb i' i); cbn [fst snd s_agg s_down s_err s_any].
       * rewrite <- (IH (cur ++ [(k, v)]) down err true). rewrite vm1_app, measure_all_app. reflexivity.
       * apply IH.
@@ -321,7 +321,7 @@ Proof.
     + apply IH.
     + cbn [concat]. rewrite <- app_assoc. f_equal. apply (IH d' err _ []).
     + apply IH.
-  - destruct o as [i' k v| | | | |b]; try discriminate; cbn [cycles pending].
+  - destruct o as [i' k v| | | | |b|]; try discriminate; cbn [cycles pending].
     + unfold adds_of. cbn [flat_map]. fold (adds_of i t). destruct (Nat.eqb i' i).
       * rewrite <- IH. now rewrite <- app_assoc.
       * apply IH.
@@ -354,7 +354,7 @@ Definition nonneg (h : list op) : Prop := forall i k v, In (Add i k v) h -> 0 <=
 Lemma adds_of_nonneg i h : nonneg h -> Forall (fun kv => 0 <= snd kv) (adds_of i h).
 Proof.
   intros Hn. apply Forall_forall. intros [k v] Hin. unfold adds_of in Hin. apply in_flat_map in Hin as [o [Ho Hin]].
-  destruct o as [i' k' v'| | | | |]; try contradiction. destruct (Nat.eqb i' i); [|contradiction].
+  destruct o as [i' k' v'| | | | | |]; try contradiction. destruct (Nat.eqb i' i); [|contradiction].
   destruct Hin as [E|[]]. inversion E; subst. cbn. eapply Hn; exact Ho.
 Qed.
 
@@ -426,7 +426,7 @@ Proof.
     + apply IH.
     + cbn [app]. f_equal. apply IH.
     + apply IH.
-  - destruct o as [i' k v| | | | |b]; try discriminate; cbn [cycles fstep]; apply IH.
+  - destruct o as [i' k v| | | | |b|]; try discriminate; cbn [cycles fstep]; apply IH.
 Qed.
 
 Lemma pending_app lossy rc r i h1 h2 : forall down err ad cur,
@@ -438,7 +438,7 @@ Proof.
   destruct (reader_op o) eqn:Hro.
   - rewrite !pending_reader by exact Hro. rewrite (fstep_reader lossy rc r i down err ad cur o Hro).
     destruct (attempt rc r down err ad o) as [[c d'] code]. destruct c; apply IH.
-  - destruct o as [i' k v| | | | |b]; try discriminate; cbn [pending fstep]; apply IH.
+  - destruct o as [i' k v| | | | |b|]; try discriminate; cbn [pending fstep]; apply IH.
 Qed.
 
 Lemma attempt_keeps_up rc r err ad o : is_shutdown r o = false -> snd (fst (attempt rc r false err ad o)) = false.
@@ -459,7 +459,7 @@ Proof.
   - rewrite (fstep_reader lossy rc r i false err ad cur o Hro).
     pose proof (attempt_keeps_up rc r err ad o Hs1) as Hu.
     destruct (attempt rc r false err ad o) as [[c d'] code]. cbn in Hu. subst d'. destruct c; now apply IH.
-  - destruct o as [i' k v| | | | |b]; try discriminate; cbn [fstep]; now apply IH.
+  - destruct o as [i' k v| | | | |b|]; try discriminate; cbn [fstep]; now apply IH.
 Qed.
 
 Lemma attempt_down rc r err ad o : fst (attempt rc r true err ad o) = (CNone, true).
@@ -475,7 +475,7 @@ Proof.
   destruct (reader_op o) eqn:Hro.
   - rewrite cycles_reader by exact Hro. pose proof (attempt_down rc r err ad o) as Hd.
     destruct (attempt rc r true err ad o) as [[c d'] code]. cbn in Hd. inversion Hd; subst. apply IH.
-  - destruct o as [i' k v| | | | |b]; try discriminate; cbn [cycles]; apply IH.
+  - destruct o as [i' k v| | | | |b|]; try discriminate; cbn [cycles]; apply IH.
 Qed.
 
 (** the first Shutdown of a periodic reader: the reader goes down; its final collection is delivered
@@ -541,7 +541,7 @@ Proof.
       assert (Ha : adds_of i (o :: t) = adds_of i t) by (destruct o; try discriminate; reflexivity).
       rewrite Ha in Hor. unfold next_ad. rewrite Hd.
       destruct (attempt rc r down err ad o) as [[c d'] code]. destruct c; now apply IH.
-    + destruct o as [i' k v| | | | |b]; try discriminate; cbn [fstep].
+    + destruct o as [i' k v| | | | |b|]; try discriminate; cbn [fstep].
       * apply IH. now left.
       * apply IH. destruct Hor as [H|H]; [now left | right; exact H].
 Qed.
@@ -610,7 +610,7 @@ Qed.
 (** * F-C02-1 (fixed by b162dd7 and e0f719a), kept as documentation: with the OLD reader semantics -
     a periodic reader skipped the delivery whenever the collection reported a callback error - the
     delta measurements collected for the skipped delivery were lost. *)
-Definition refute_rc : rcfg := {| rk := RPeriodic; r_delta := true |}.
+Definition refute_rc : rcfg := {| rk := RPeriodic; r_delta := true; r_cb := true |}.
 
 (** the history that failed before fix b162dd7 (ForceFlush while the callback fails) is now
     delivered completely: recorded 12, exported 5 then 7 *)
